@@ -43,12 +43,12 @@ EXPLANATION = (
     'replace_if_different(final, temporary) and that call is only reachable after the writer was closed (with-exit / close()); the same holds for module methods that write a '
     'file and return it as File.from_built_file (a source / input of build edges); copy mode of configure_file uses a copy that keeps the '
     'source mtime (copy2) or a temporary; inside replace_if_different os.replace happens exactly on the paths where the comparison did '
-    'not prove equality and the equal path unlinks the temporary; build.ninja goes through temp + os.replace. R4 (K3): the scratch file '
+    'not prove equality and the equal path unlinks the temporary; build.ninja goes through temp + os.replace, and a handle that appends to the temporary (helper returning open(<parameter>, "a")) is dominated by a truncating open of the same path in the same function (else leftovers of an interrupted run are published). R2 follows the written text into phase methods of the class (a method whose result is written, a method handed the file); R4 reads what X.hash(hasher) feeds from the hash method of the class of X. R4 (K3): the scratch file '
     'names meson_exe_*/meson_rsp_* are functions of a digest fed by command, env, workdir, capture and feed and by nothing volatile; an object whose class defines hash(hasher) is fed '
     'through that method, not as str() text. '
     'R5 (K6): every un-keyed sorted()/sort()/min()/max() in scope whose elements are instances of a repository class relies on a __lt__ '
     'whose decision table is a strict total order consistent with __eq__. R5 covers every repository class that defines __lt__ (total_ordering classes without __eq__: the constructor-bound '
-    'fields stand for the identity). R6: a name table filled while iterating a directory listing (directly or through a dict filled in listing order; self-method calls followed with constant flag binding) treats a name that is already registered as an error on every decision path the caller can reach - a tolerated collision (first or last registration wins) makes the provider depend on readdir order (wrap provided_deps / provided_programs). Unguarded keyed stores in listing order (last wins; whether keys can collide is value level) are information. Does NOT decide byte equality across runs (run-time relation), whether serialised state is dumped '
+    'fields stand for the identity). R6: a name table filled while iterating a directory listing (directly or through a dict filled in listing order; self-method calls followed with constant flag binding) treats a name that is already registered as an error on every decision path the caller can reach - a tolerated collision (first or last registration wins) makes the provider depend on readdir order (wrap provided_deps / provided_programs). Unguarded keyed stores in listing order (last wins; whether keys can collide is value level) are information. Does NOT decide byte equality across runs (run-time relation), whether a digest that only shortens a file name is process-stable (builtin hash() of a str is salted per process, of an int is not: the operand type is value level; seed C06-r7-1, Backend.canonicalize_filename), whether the path tested by an exists()/compare guard of a write-if-changed block is the absolute or the cwd-relative spelling of the file that is written (two str variables holding the same path: value level; seed C06-r7-3, depscan pickle), whether serialised state is dumped '
     'before later configure steps mutate objects it aliases (e.g. dump_coredata vs. postconf hooks: run-time aliasing), whether per-machine cache keys carry the machine (DependencyCache) or a result cache key covers every input of the '
     'cached computation (run_check_cache), lists shared by aliasing between dict entries (add_*_arguments), leftovers of an earlier '
     'configure in the build directory that change what the next one emits (e.g. a dangling alias symlink kept because its removal is guarded by '
@@ -467,6 +467,11 @@ def _write_opens(fn: ast.AST) -> T.List[ast.Call]:
     return sorted(out, key=lambda c: c.lineno)
 
 
+def _open_mode(c: ast.Call) -> str:
+    mode = c.args[1] if len(c.args) > 1 else kwarg(c, 'mode')
+    return mode.value if isinstance(mode, ast.Constant) and isinstance(mode.value, str) else ''
+
+
 def _ptext(e: T.Optional[ast.AST]) -> str:
     """Normalised text of a path expression with str() / os.fspath() / Path() wrappers removed."""
     while isinstance(e, ast.Call) and len(e.args) == 1 and not e.keywords and (attr_chain(e.func) or '') in ('str', 'os.fspath', 'Path', 'fspath', 'pathlib.Path'):
@@ -651,9 +656,34 @@ def _finished_by(ctx: RuleCtx, mod: Module, qual: str, finisher: str, dst_index:
             pw = _helper_writes(ctx, mod, qual, c)
             if pw is not None:
                 sites.append((c, pw, False))
-    if not sites:
+    # handles that APPEND to a path (helper that returns open(<its parameter>, 'a')): what is published is whatever the path held
+    # before plus the new text, so every such handle must be dominated by a truncating open of the same path in this function
+    # (else the leftovers of an interrupted earlier run end up in the published file: the output depends on the directory's history)
+    appenders: T.List[T.Tuple[ast.Call, str]] = []
+    for c in calls:
+        h = _helper_of(ctx, mod, qual, c)
+        if h is None or h[1] == qual:
+            continue
+        bound_a = _bind_args(c, h[2], h[3])
+        for r in walk_no_nested(h[2]):
+            v = r.value if isinstance(r, ast.Return) else None
+            if isinstance(v, ast.Call) and v in _write_opens(h[2]) and isinstance(v.args[0], ast.Name) and v.args[0].id in bound_a \
+                    and 'a' in _open_mode(v) and not any(cc is c for cc, _ in appenders):
+                appenders.append((c, _ptext(bound_a[v.args[0].id])))
+    if not sites and not appenders:
         return 0
     cfg = CFG(fn)
+    for c, p in appenders:
+        trunc = [n for op, p2, direct in sites if p2 == p and not (direct and 'a' in _open_mode(op)) for n in cfg.node_containing(op)]
+        here = cfg.node_containing(c)
+        if not here:
+            raise Undecided(f'{qual}: call {short(c, 40)} not found in the CFG')
+        ctx.require(all(cfg.dominated_by_any(n, trunc, no_exc=True) for n in here),
+                    f'{mod.rel}:{qual}: `{short(c, 50)}` appends to {p} only after it was created / truncated by an open(.., "w") in this function',
+                    mod, qual, f'append handle on {p} without a truncating open before it',
+                    f'`{short(c, 60)}` opens {p} in append mode and no open({p}, "w") precedes it on every path: a stale {p} left by an '
+                    'interrupted earlier configuration is appended to and then published, so the generated file depends on the build '
+                    "directory's history", c)
     for op, p, direct in sites:
         fins = []
         for c in calls:
@@ -725,7 +755,7 @@ def _finished_by(ctx: RuleCtx, mod: Module, qual: str, finisher: str, dst_index:
                         "the with-exit / .close() of that file): the temporary is still unflushed, so the comparison sees a difference and the "
                         'unchanged output is replaced on every reconfigure (or a truncated file is published)',
                         early[0].ast if early else op)
-    return len(sites)
+    return len(sites) + len(appenders)
 
 
 def _finished_by_deep(ctx: RuleCtx, mod: Module, qual: str, finisher: str, dst_index: int, tmp_index: int, depth: int = 0) -> int:
@@ -1238,7 +1268,7 @@ def _digest_facts(ctx: RuleCtx, sc: T.Optional[SiteScanner], mod: Module, qual: 
                 inputs.add(attr_chain(e) or '')
                 inputs |= sub[0]
                 origins |= sub[1]
-                helper_calls += sub[2]
+                helper_calls += [f'[{attr_chain(e)}.hash] {x}' for x in sub[2]]     # can only supply fields of that object
                 continue
         inputs |= _resolved_chains(fl, e)
         origins |= fl.origins(e)
@@ -1323,8 +1353,10 @@ def _scratch_name(ctx: RuleCtx, mod: Module, qual: str, required: T.Dict[str, T.
         facts = facts._replace(inputs=inputs)
         for what, alts in required.items():
             ok = any(a in facts.inputs for a in alts)
-            if not ok and facts.helper_calls:
-                raise Undecided(f'{qual}: {what} is not among the direct digest inputs, but the digest is also fed through {facts.helper_calls[:3]}, '
+            unread = [h for h in facts.helper_calls
+                      if not h.startswith('[') or any((a + '.').startswith(h[1:h.index('.hash] ')] + '.') for a in alts)]
+            if not ok and unread:
+                raise Undecided(f'{qual}: {what} is not among the direct digest inputs, but the digest is also fed through {unread[:3]}, '
                                 'which this rule does not read')
             ctx.require(ok, f'{qual}: {what} ({"/".join(alts)}) is fed to the digest that names the scratch file', mod, qual, f'digest input: {what}',
                         f'{what} ({" / ".join(alts)}) is not fed to the digest that names the scratch file any more (inputs: {sorted(facts.inputs)[:12]}): '
